@@ -8,6 +8,7 @@ import itertools
 import collections
 import bisect
 import random
+import statistics
 from fractions import Fraction
 from typing import Any, List, Tuple, Dict, Iterable
 from numbers import Number
@@ -170,4 +171,48 @@ def exact_mean(values: List[Number]) -> Number:
 
 EXACT_AGGREGATORS = {
     'mean': exact_mean,
+}
+
+
+def _counted_sum(counts: Dict[Number, Number]) -> Number:
+    return sum(value * count for value, count in counts.items())
+
+
+def _counted_mean(counts: Dict[Number, Number]) -> Number:
+    total = _counted_sum(counts)
+    if isinstance(total, float):
+        return total / sum(counts.values())
+    else:
+        return Fraction(total, sum(counts.values()))
+
+
+def _counted_middle(counts: Dict[Any, Number]) -> Tuple[Any, Any]:
+    # the two middle values (low and high median) of the values repeated
+    # according to their counts, without building that list
+    total = sum(counts.values())
+    running, low = 0, None
+    for value in sorted(val for val, count in counts.items() if count > 0):
+        running += counts[value]
+        if low is None and 2 * running >= total:
+            low = value
+        if 2 * running > total:
+            return low, value
+    raise statistics.StatisticsError('no median for empty data')
+
+
+def _counted_median(counts: Dict[Number, Number]) -> Number:
+    low, high = _counted_middle(counts)
+    return low if low == high else (low + high) / 2
+
+
+#: Equivalents of aggregation functions that take a mapping from values to
+#: the numbers of their occurrences instead of a list with repeated values.
+COUNTED_AGGREGATORS = {
+    exact_mean: _counted_mean,
+    sum: _counted_sum,
+    min: lambda counts: min(v for v, n in counts.items() if n > 0),
+    max: lambda counts: max(v for v, n in counts.items() if n > 0),
+    statistics.median_low: lambda counts: _counted_middle(counts)[0],
+    statistics.median_high: lambda counts: _counted_middle(counts)[1],
+    statistics.median: _counted_median,
 }
